@@ -211,26 +211,22 @@ def run(program, rep, tier, sleep_only=False):
                              '<heap head>.wait_time": a coroutine whose wait '
                              'has exactly elapsed wakes a frame late, or a '
                              'later deadline is woken first')
-                if active_loop is not None and e.node is first_leaf(
-                        active_loop.test):
+                if t == f'{AQ}[0] is None' and isinstance(
+                        e.node, ast.Compare):
                     if in_active:
                         cnt['iter'] += 1
                         if it_next > 1:
-                            flag('step', active_loop.test, 'a coroutine is '
+                            flag('step', e.node, 'a coroutine is '
                                  'advanced more than once in one iteration')
                         if it_move != 1:
-                            flag('step', active_loop.test,
+                            flag('step', e.node,
                                  f'an iteration of the active loop performs '
                                  f'{it_move} of (rotate, popleft): the '
                                  'frame never ends, or a coroutine is skipped')
                     else:
                         if not rot_before:
-                            flag('step', active_loop.test, 'the sentinel is '
+                            flag('step', e.node, 'the sentinel is '
                                  'not rotated to the back before the loop')
-                        ok = t == f'{AQ}[0] is None'
-                        if not ok:
-                            flag('step', active_loop.test, 'the active loop '
-                                 'does not test the sentinel at the head')
                     in_active = bool(e.extra is False) if t == \
                         f'{AQ}[0] is None' else bool(e.extra)
                     it_next = it_move = 0
